@@ -152,10 +152,18 @@ def parse_match(text):
         try:
             return atom.atom(orig_text)
         except errors.MalformedAtom as e:
-            if "*" not in text:
+            if "*" not in orig_text:
                 raise ParseError(str(e)) from e
+            if "*" not in text:
+                # only the slot/sub-slot part is globbed
+                try:
+                    return packages.AndRestriction(atom.atom(text), *restrictions)
+                except errors.MalformedAtom as e:
+                    raise ParseError(str(e)) from e
             # support globbed targets with version restrictions
-            return packages.AndRestriction(*parse_globbed_version(text, orig_text))
+            return packages.AndRestriction(
+                *restrictions, *parse_globbed_version(text, orig_text)
+            )
 
     r = list(map(convert_glob, tsplit))
     if not r[0] and not r[1]:
